@@ -321,12 +321,19 @@ def spec_stream(q, a):
     return None
 
 
+def spec_yield(q, a):
+    if a.split("delivered=")[1] != "[0,1]":
+        return ("a task that woke itself %s times inside its own poll, then a task scheduled after it: delivered %s, expected [0,1] "
+                "(a wake or a schedule() was lost)" % (q.split()[1], a.split("delivered=")[1]))
+    return None
+
+
 def stream_cases(res, tier, have_drv):
     sizes = [0, 1, 2, 7, 1023, 1024, 1025, 3000] + ([2048, 2049, 5000, 10000] if tier == "thorough" else [])
-    lines = ["stream %d %d" % (n, 5) for n in sizes]
+    lines = ["stream %d %d" % (n, 5) for n in sizes] + ["yield %d" % n for n in (0, 1, 2, 5)]
     impl, model = exec_cb_queries(lines, have_drv)
     for i, (q, a) in enumerate(zip(lines, impl)):
-        v = spec_stream(q, a)
+        v = spec_stream(q, a) if q.startswith("stream") else spec_yield(q, a)
         if v:
             res.cov["impl_monitor_failures"] += 1
             if len(res.violations) < 3:
@@ -342,7 +349,7 @@ def replay(path):
     if path.endswith(".execcb"):
         q = open(path).read().strip()
         impl, _ = exec_cb_queries([q], False)
-        v = spec_stream(q, impl[0]) if q.startswith("stream") else None
+        v = spec_stream(q, impl[0]) if q.startswith("stream") else (spec_yield(q, impl[0]) if q.startswith("yield") else None)
         print(impl[0]); print("verdict:", v)
         return 1 if v else 0
     case = [l.rstrip("\n") for l in open(path) if l.strip()]
